@@ -20,6 +20,10 @@ inductive Cmd
 def parseCmd : List String → Option Cmd
   | "w" :: toks => if toks.isEmpty then none else (toks.mapM parsePoint).map fun b => .op (.write b)
   | ["drop", m] => if validName m then some (.op (.drop m)) else none
+  | ["race", pa, pb] =>
+    match parsePoint pa, parsePoint pb with
+    | some a, some b => some (.op (.race [a] [b]))
+    | _, _ => none
   | ["reopen"] => some (.op .reopen)
   | ["crash"] => some (.op .crash)
   | "wtorn" :: j :: toks =>
@@ -48,6 +52,7 @@ def stepStr : Step10 → String
     if opened then "ok " ++ Spec.C10.restartName kind ++ " " ++ seenStr after else "err:open " ++ Spec.C10.restartName kind ++ " - -"
   | .tornWrite _ opened after => if opened then "ok torn " ++ seenStr after else "err:open torn - -"
   | .tornDrop _ opened after => if opened then "ok torn " ++ seenStr after else "err:open torn - -"
+  | .race _ _ _ _ _ => "*"     -- which writer wins is the scheduler's choice
   | .look after => seenStr after
 
 def step (st : PState) (toks : List String) : PState × String :=
@@ -114,6 +119,14 @@ def observe (toks : List String) (ans : String) : Option (Option Step10) :=
     | "err:open" :: _ => some (some (.tornDrop m false { sch := [], store := none }))
     | [_] => some (some (.tornDrop m false { sch := [], store := none }))
     | _ => none
+  | some (.op (.race a b)) =>
+    -- <result of a> / <result of b> / <schema> <entries>
+    match (ans.splitOn " / ").map tokens with
+    | [ra, rb, [sch, ents]] =>
+      match parseRes ra, parseRes rb, parseSeen sch ents with
+      | some ra, some rb, some after => some (some (.race a b ra rb after))
+      | _, _, _ => none
+    | _ => none
   | some (.op .look) =>
     match ws with
     | [sch, ents] => (parseSeen sch ents).map fun a => some (.look a)
@@ -139,6 +152,8 @@ def stepTags (M : Spec.C10.Mem) : Step10 → List String
     [if Spec.C10.sameSchema a.sch M.cur.sch then "torn-write:before" else "torn-write:after"]
   | .tornDrop m _ a =>
     [if Spec.C10.hasMeas M.cur.sch m && !Spec.C10.hasMeas a.sch m then "torn-drop:after" else "torn-drop:before"]
+  | .race _ _ ra rb _ =>
+    [if ra == .ok && rb == .ok then "race:both-ok" else "race:one-refused"]
   | .look _ => []
 
 def oracle (obs : List (List String × String)) : Verdict :=
